@@ -564,11 +564,18 @@ func (d *driver) runShapes(cases []shapeCase) (txVals, ruleVals, signerVals, ite
 	nth := map[string]int{}
 	mk := func(kind, cls string, fresh func() (any, error), deep bool) *valueT {
 		v, err := mkValue(d.ks, &valueT{kind: kind, cls: cls, src: "enum", fresh: fresh})
-		if err != nil {
-			d.t.Fatalf("enumerated value: %v", err)
+		if err != nil { // the shape event carries the verdict (a value inside the limits that is refused); no path value
+			d.res.Inc("enumerated_values_refused", 1)
+			return nil
 		}
 		v.deep = deep
 		return v
+	}
+	keep := func(vs []*valueT, v *valueT) []*valueT {
+		if v == nil {
+			return vs
+		}
+		return append(vs, v)
 	}
 	for _, c := range cases {
 		nth[c.Space]++
@@ -581,7 +588,7 @@ func (d *driver) runShapes(cases []shapeCase) (txVals, ruleVals, signerVals, ite
 			if c.Legal && nth["cond"]%9 == 0 {
 				raw, err := encode(r)
 				must(err)
-				ruleVals = append(ruleVals, mk("rule", s.class(), arrive("rule", raw, false), nth["cond"]%90 == 0))
+				ruleVals = keep(ruleVals, mk("rule", s.class(), arrive("rule", raw, false), nth["cond"]%90 == 0))
 			}
 		case "signer":
 			var s signerShape
@@ -593,8 +600,8 @@ func (d *driver) runShapes(cases []shapeCase) (txVals, ruleVals, signerVals, ite
 			if c.Legal && signerSig(s) == "within-limits" {
 				raw, err := encode(sg)
 				must(err)
-				signerVals = append(signerVals, mk("signer", s.class(), arrive("signer", raw, false), nth["signer"]%10 == 0))
-				txVals = append(txVals, mk("tx", "signer "+s.class(), arrive("tx", tx.Bytes(), false), nth["signer"]%10 == 0))
+				signerVals = keep(signerVals, mk("signer", s.class(), arrive("signer", raw, false), nth["signer"]%10 == 0))
+				txVals = keep(txVals, mk("tx", "signer "+s.class(), arrive("tx", tx.Bytes(), false), nth["signer"]%10 == 0))
 			}
 		case "attrs":
 			var a attrShape
@@ -602,7 +609,7 @@ func (d *driver) runShapes(cases []shapeCase) (txVals, ruleVals, signerVals, ite
 			tx := buildAttrTx(a)
 			d.shapeLaws("attrs", "tx", a.class(), attrSig(a, c.Legal), c.Legal, tx, nil, "", false)
 			if c.Legal && !strings.Contains(a.class(), "Reserved") {
-				txVals = append(txVals, mk("tx", a.class(), arrive("tx", tx.Bytes(), false), nth["attrs"]%10 == 0))
+				txVals = keep(txVals, mk("tx", a.class(), arrive("tx", tx.Bytes(), false), nth["attrs"]%10 == 0))
 			}
 		case "item":
 			var s itemShape
@@ -624,9 +631,9 @@ func (d *driver) runShapes(cases []shapeCase) (txVals, ruleVals, signerVals, ite
 			if s.T != "Special" || strings.HasPrefix(s.Name, "map-mixed") || s.Name == "all-kinds" || s.Name == "shared" || s.Name == "struct-in-map-in-array" {
 				if nth["item"]%7 == 0 || s.T == "Special" {
 					shape := s
-					itemVals = append(itemVals, mk("item", s.class(), func() (any, error) { return &itemObj{buildItem(shape)}, nil }, nth["item"]%70 == 0 || s.T == "Special"))
+					itemVals = keep(itemVals, mk("item", s.class(), func() (any, error) { return &itemObj{buildItem(shape)}, nil }, nth["item"]%70 == 0 || s.T == "Special"))
 					fault := nth["item"]%2 == 0
-					aerVals = append(aerVals, mk("aer", s.class(), func() (any, error) { return aerWith(buildItem(shape), strict, fault), nil }, nth["item"]%70 == 0 || s.T == "Special"))
+					aerVals = keep(aerVals, mk("aer", s.class(), func() (any, error) { return aerWith(buildItem(shape), strict, fault), nil }, nth["item"]%70 == 0 || s.T == "Special"))
 				}
 			}
 		case "manifest":
